@@ -228,6 +228,32 @@ def _mk(kind, E, name="t", lo=0, hi=4):
     return (IT if kind == "I" else PT)(name, list(E), lo, hi)
 
 
+NUM_LABELS = ("132", "132.0", "1e2", "100", "7", "07", "1000", "1_000", "0.1", "0.10000000001", "nan", "NaN", "inf", "-0", "0")
+
+
+def _check_eq_numeric_labels(case):
+    """labels whose TEXT reads as a number: a label is text - '132' and '132.0' are different labels, and a tier labelled 'nan' equals itself"""
+    kind, a, b = case
+    def mk(lab, lab2="w"):
+        return _mk(kind, [(1.0, 2.0, lab), (2.0, 3.0, lab2)] if kind == "I" else [(1.0, lab), (2.0, lab2)])
+    viols = []
+    ta, tb = mk(a), mk(b)
+    same = a == b
+    for what, x, y in (("tier", ta, tb), ("tier (second entry)", mk("w", a), mk("w", b))):
+        for p, q in ((x, y), (y, x)):
+            if (p == q) != same or (p != q) == same:
+                viols.append(Viol("eq-on-number-like-labels", f"{kind} tiers that differ only in one label, {a!r} vs {b!r}: == gives {p == q}, != gives {p != q}"))
+                return 4, "!", None, viols
+    tga, tgb = Textgrid(0, 4), Textgrid(0, 4)
+    tga.addTier(ta)
+    tgb.addTier(tb)
+    if (tga == tgb) != same:
+        viols.append(Viol("eq-on-number-like-labels", f"textgrids whose {kind} tier differs only in one label, {a!r} vs {b!r}: == gives {tga == tgb}"))
+    if same and not (ta == ta.new() and ta == ta and tga == tga.new()):
+        viols.append(Viol("eq-not-reflexive", f"a {kind} tier with the label {a!r} is not equal to itself / to its copy"))
+    return 5, "ok", (kind, a, b), viols
+
+
 def _check_eq(case):
     kind, E = case
     E = list(E)
@@ -510,6 +536,10 @@ def parts(tier):
         InputPart("equality", gen_eq, _check_eq,
                   rule="every tier of <=2 entries x every single-field perturbation (name, span, type, one label, entry count, one timestamp by "
                        "1e-3) => unequal both ways; reflexive, symmetric; the same inside textgrids; tier count and order",
+                  bounds={}),
+        InputPart("equality-number-like-labels", lambda: ((k, a, b) for k in ("I", "P") for a in NUM_LABELS for b in NUM_LABELS), _check_eq_numeric_labels,
+                  rule="all ordered pairs of %d labels whose text reads as a number ('132' / '132.0', '1e2' / '100', '7' / '07', 'nan', 'inf', '-0' / '0' ...) as the "
+                       "only difference between two tiers / textgrids: equal exactly when the texts are equal, both ways, == and != consistent, reflexive" % len(NUM_LABELS),
                   bounds={}),
         InputPart("validate", gen_eq, _check_validate,
                   rule="every tier of <=2 entries: validate() True when well-formed; every single corruption (entry outside span either side, "
